@@ -472,6 +472,7 @@ pub fn main_check(prop: &str, tier: &str) -> i32 {
     let mut known_seen = Vec::new();
     let mut foreign = Vec::new();
     let mut new_violations = Vec::new();
+    let _ = std::fs::create_dir_all(format!("{}/replays", home()));
     for (sig, (count, first)) in &agg.found {
         let props: Vec<String> = first.geta("props").iter().filter_map(|x| x.as_str().map(|s| s.to_string())).collect();
         let mine = props.iter().any(|p| p == prop) || props.is_empty();
@@ -483,7 +484,9 @@ pub fn main_check(prop: &str, tier: &str) -> i32 {
             continue;
         }
         if !mine {
-            foreign.push(J::obj().set("signature", sig.as_str()).set("count", *count).set("detail", first.gets("detail")));
+            let kept = crate::minimize::keep_foreign(prop, sig, first);
+            eprintln!("note: {} run(s) showed {} (a finding for another property, not counted against {}): {}", count, sig, prop, kept);
+            foreign.push(J::obj().set("signature", sig.as_str()).set("count", *count).set("detail", first.gets("detail")).set("replay", kept.as_str()));
             continue;
         }
         violations += 1;
